@@ -63,6 +63,8 @@ def run(chk):
         why = None
         try:
             rec = fcp.reflection()
+            if fcp.reflection() != rec:
+                fails.append({"kind": "reflection", "schema": text, "why": "a second fcp.reflection() of the same object differs from the first"})
         except Exception as e:
             rec, why = None, f"fcp.reflection() raised {e!r}"
         enc = dec = None
